@@ -34,6 +34,6 @@ out = ["# Independently seeded changes and the checks that catch them\n",
 for pid, m in rows:
     det = m.get("detected", {})
     ok = all(det.values()) and det
-    out.append(f"| {pid} | {m.get('needs_to_manifest','')} | {'**caught**' if ok else 'MISSED'} (exit {m.get('check_exit_codes',{}).get(base)}) | {m.get('detected_by','')} |")
+    out.append(f"| {pid} | {m.get('needs_to_manifest','')} | {'**caught**' if ok else ('not observable with legal inputs' if m.get('undetectable_under_sound_inputs') else 'MISSED')} (exit {m.get('check_exit_codes',{}).get(base)}) | {m.get('detected_by','')} |")
 open("/verif/SEEDED.md", "w").write("\n".join(out) + "\n")
 print(sum(1 for _, m in rows if all(m.get("detected", {}).values())), "of", len(rows), "caught")
